@@ -279,11 +279,20 @@ def edge_canaries(edges) -> int:
         e = copy.deepcopy(ev)
         ent = e[4][-1]
         ent[path[0]][path[1]][path[2]] += 1
-        tampered.append((e, ent))
-    e = copy.deepcopy(rs); e[4][0][4][1] += 1; e[4][0][5][1] += 1; tampered.append((e, e[4][0]))
-    e = copy.deepcopy(nx); e[4][0][5][0] = ""; tampered.append((e, e[4][0]))
-    e = copy.deepcopy(cf); e[4][0][5][2] += 1; tampered.append((e, e[4][0]))
-    for e, ent in tampered:
+        tampered.append((e, ent, ev[4][-1]))
+    e = copy.deepcopy(rs)
+    e[4][0][4][1] += 1
+    e[4][0][5][1] += 1
+    tampered.append((e, e[4][0], rs[4][0]))
+    e = copy.deepcopy(nx)
+    e[4][0][5][0] = ""
+    tampered.append((e, e[4][0], nx[4][0]))
+    e = copy.deepcopy(cf)
+    e[4][0][5][2] += 1
+    tampered.append((e, e[4][0], cf[4][0]))
+    for e, ent, orig in tampered:
+        if replay_entry(e[0], e[1], e[2], e[3], orig):
+            continue  # the code under test already disagrees here (reported as a violation)
         if not replay_entry(e[0], e[1], e[2], e[3], ent):
             raise tlc.MachineryError(f"tampered edge accepted by the replay: {e[:4]} {ent}")
         n += 1
@@ -708,9 +717,13 @@ def trace_canaries():
     """One real trace and corruptions of it; Trace_Pad must accept the first and reject the rest."""
     import copy
 
+    # hand-made (NOT produced by the library: the self-check must not depend on the code under test)
     case = dict(via="pad", inner=dict(kind="text", rw=3, rh=2, variant=0), pad=exact(1, 2, 3, 1),
                 fill="#", term=(80, 30))
-    (orig, _), = run_case(case)
+    inner = text_render(3, 2, 0)
+    l1, l2 = inner.split("\n")
+    padded = "\n".join(["#" * 7, "#" * 7, "#" + l1 + "###", "#" + l2 + "###", "#" * 7])
+    orig = trace_of(case, inner, (3, 2), padded, (7, 5))
     out = [("original", orig)]
 
     def variant(name, fn):
